@@ -100,11 +100,17 @@ pub fn run(seed: u64) -> RunOutcome {
         _ => last - r.below(40) as u32,
     });
     let mut prof = Profile::mixed();
-    prof.steps = r.range(3, 14) as usize;
+    prof.steps = r.range(3, 24) as usize;
     prof.clients = r.range(1, 2) as u8;
     prof.max_write = (u32::from(cfg.vol.spc) * u32::from(cfg.vol.bps) * 3 + 1).min(200_000);
     prof.w_write = 30;
     prof.w_create_dir = 16;
+    prof.w_stats = 0; // a recount on a 268M-cluster volume is half a billion device calls; stats is compared after every call while the count is maintained
+    prof.w_truncate = 14;
+    prof.w_seek = 10;
+    prof.w_open_file = 10;
+    prof.keep = 800;
+    prof.gambit_pct = 50;
     prof.w_checkpoint = 6;
     prof.w_remount = 5;
     prof.invalid_names = 10;
@@ -127,6 +133,6 @@ pub fn run(seed: u64) -> RunOutcome {
 }
 
 pub fn batches(tier: &str, seed: u64) -> Vec<Batch<'static>> {
-    let n = if tier == "quick" { 96u64 } else { 6000 };
+    let n = if tier == "quick" { 320u64 } else { 20_000 };
     vec![Batch { name: "short histories on sparse 4 GiB .. 2 TiB FAT32 volumes, hint at / before / past the last cluster".into(), runs: n, f: Box::new(move |i| run(crate::rng::run_seed(seed, 95, i))) }]
 }
